@@ -245,6 +245,14 @@ def device_frames(ctx: Ctx):
                 v["beep"] = bool(info)
             prev = f[-3]
             out.append(v)
+        # every transmission - the first and the repeated ones (unanswered commands are sent three times) - carries the command as it was emitted
+        eset = set(emitted)
+        for r in dev.rx:
+            fr = r.get("frame") if r.get("frame") is not None else (r.get("raw") if r.get("kind") == "v2" and not r.get("ok") else None)
+            if fr is not None and bytes(fr) not in eset:
+                out.append(dict(kind="received", frame=B(fr), prev=-1, exc="none", via=f"device-v{ver}-received"))
+        ctx.extra.setdefault("transmissions_seen_by_the_appliance", 0)
+        ctx.extra["transmissions_seen_by_the_appliance"] += sum(1 for r in dev.rx if r.get("frame") is not None)
         for r in raised:
             out.append(dict(kind="raised", frame=[], prev=-1, exc=f"{r[0]}: {r[1]} {r[2]}", via=f"device-v{ver}", detail=list(r[3:])))
     return out
